@@ -388,7 +388,7 @@ def verify(contract, target, make_engine, seed=0, timeout_ms=10000, both=False, 
     except Exception as e:
         res.status = 'error'
         res.reason = 'engine error: %s\n%s' % (e, traceback.format_exc())
-    res.assumed = sorted(eng.ext.assumed)
+    res.assumed = sorted(set(eng.ext.assumed) | {'domain / assumed precondition of %s (not demanded of its callers): %s' % (target, n_) for n_ in getattr(res, 'dom_clauses', [])})
     res.inlined = sorted(eng.inlined)
     res.callees = sorted(eng.used_contracts)
     res.time_s = round(time.time() - t0, 3)
@@ -446,6 +446,7 @@ def _verify_body(eng, contract, target, mod, cname, node, res, seed, timeout_ms,
         args['self'] = vars[pos[0]]
     c0 = CallCtx(eng, ctx, pre, pre, args, self_obj=contract.self_obj)
     req = contract.requires(c0) or {}
+    res.dom_clauses = sorted(n_ for n_ in req if n_.startswith(('dom.', 'assume:')))
     req_terms = list(req.values())
     for t in req_terms:
         ctx.assume(t)
